@@ -18,7 +18,13 @@ import (
 // Rng is a splitmix64 generator: every random choice of a harness derives from one seed.
 type Rng struct{ s uint64 }
 
-func NewRng(seed uint64) *Rng { return &Rng{s: seed*0x9E3779B97F4A7C15 + 0x1234567} }
+func NewRng(seed uint64) *Rng {
+	// mix the seed so that consecutive seeds give unrelated streams (not the same stream shifted by one draw)
+	z := seed + 0x1234567
+	z = (z ^ (z >> 30)) * 0xBF58476D1CE4E5B9
+	z = (z ^ (z >> 27)) * 0x94D049BB133111EB
+	return &Rng{s: z ^ (z >> 31)}
+}
 
 func (r *Rng) Uint64() uint64 {
 	r.s += 0x9E3779B97F4A7C15
